@@ -227,32 +227,39 @@ func (r *EntRepository) MarkAsDispatched(ctx context.Context, id string) error {
 }
 
 func (r *EntRepository) MarkAsDone(ctx context.Context, id string, err error) error {
-	builder := r.client.Task.
-		UpdateOneID(id).
-		Where(task.StateEQ(task.StateDispatched))
+	for {
+		builder := r.client.Task.
+			UpdateOneID(id).
+			Where(task.StateEQ(task.StateDispatched))
 
-	if err == nil {
-		builder = builder.SetState(task.StateDone).
-			SetDoneAt(def.NormalizeTime(r.clock.Now()))
-	} else {
-		builder = builder.SetState(task.StateErr).
-			SetDoneAt(def.NormalizeTime(r.clock.Now())).
-			SetErr(err.Error())
-	}
-
-	updateErr := builder.Exec(ctx)
-
-	if gen.IsNotFound(updateErr) {
-		t, err := r.GetById(ctx, id)
-		if err != nil {
-			return err
+		if err == nil {
+			builder = builder.SetState(task.StateDone).
+				SetDoneAt(def.NormalizeTime(r.clock.Now()))
+		} else {
+			builder = builder.SetState(task.StateErr).
+				SetDoneAt(def.NormalizeTime(r.clock.Now())).
+				SetErr(err.Error())
 		}
-		return def.ErrKindMarkAsDone(t)
+
+		updateErr := builder.Exec(ctx)
+
+		if gen.IsNotFound(updateErr) {
+			t, getErr := r.GetById(ctx, id)
+			if getErr != nil {
+				return getErr
+			}
+			if t.State == def.TaskDispatched {
+				// The task was marked as dispatched after the update above had missed it.
+				// Returning nil here would report a success without recording anything.
+				continue
+			}
+			return def.ErrKindMarkAsDone(t)
+		}
+		if updateErr != nil {
+			return updateErr
+		}
+		return nil
 	}
-	if updateErr != nil {
-		return updateErr
-	}
-	return nil
 }
 
 func (r *EntRepository) Find(
